@@ -383,7 +383,9 @@ func checkC09(c C09Case) Result {
 							return true
 						}
 					}
-					return false
+					// (inside an undetermined region - a dynamic block, an unresolvable dependent body -
+					// the model names no sources; a type-less, definition-less target there is such a reference too)
+					return inIgnore(s, e)
 				})
 				checkExtent(t, 0, false)
 			}
